@@ -266,9 +266,49 @@ def check(rng, override=None):
     return out, n
 
 
+def factorisation_history():
+    """a factorisation handed down by an enclosing model at one steady state must not be reused later at another one: after model-level general-equilibrium calls at calibration 1, the solved block's own
+    linear methods (and the model's plain linear impulse) at calibration 2 must equal those of objects built afresh"""
+    out, n, T = [], 0, 20
+    m = M.load()
+    nm, inner = m.nested()
+    fresh_nm, fresh_inner = M.load().nested()
+    cal1, cal2 = dict(m.CALIB), dict(m.CALIB, beta=0.9, alpha=0.4, e=0.1)
+    solve = lambda model, cal: model.solve_steady_state(dict(cal), {'p': (-4.0, 4.0)}, {'res_p': 0.0}, solver='brentq')
+    ss1, ss2 = solve(nm, cal1), solve(nm, cal2)
+    ss2f = solve(fresh_nm, cal2)
+    Z = m.EXOG
+    sh = {Z[0]: 0.05 * 0.7 ** np.arange(T)}
+    # history at calibration 1: model-level calls that pass the factorised target-unknown Jacobian of the solved block down
+    nm.solve_jacobian(ss1, ['p'], ['res_p'], Z, T=T)
+    nm.solve_impulse_linear(ss1, ['p'], ['res_p'], sh)
+    inner_in = [i for i in inner.inputs if i in Z or i == 'p']
+    calls = [('solved block jacobian', lambda mod, blk, ss: blk.jacobian(ss, inner_in, T=T)),
+             ('solved block impulse_linear', lambda mod, blk, ss: blk.impulse_linear(ss, {k: v for k, v in sh.items() if k in blk.inputs} or {inner_in[0]: sh[Z[0]]})),
+             ('model impulse_linear', lambda mod, blk, ss: mod.impulse_linear(ss, {**sh, 'p': np.zeros(T)})),
+             ('model jacobian', lambda mod, blk, ss: mod.jacobian(ss, Z + ['p'], T=T))]
+    for label, f in calls:
+        n += 1
+        try:
+            got, want = f(nm, inner, ss2), f(fresh_nm, fresh_inner, ss2f)
+            if hasattr(want, 'nesteddict'):
+                bad = [f'{o}/{i}' for o in want.outputs for i in want.nesteddict[o] if i not in got.nesteddict.get(o, {}) or np.abs(dmat(got, o, i, T) - dmat(want, o, i, T)).max() > 1e-9]
+            else:
+                bad = [k for k in want.toplevel if k not in got.toplevel or np.abs(got[k] - want[k]).max() > 1e-9]
+        except Exception as ex:
+            bad = [f'raised {type(ex).__name__}: {ex}']
+        if bad:
+            C.push(out, dict(what='linear results at a second steady state depend on general-equilibrium calls made earlier at another steady state (a factorisation was kept)',
+                             input=dict(kind='factorisation-history', call=label, history=['solve_jacobian at calibration 1', 'solve_impulse_linear at calibration 1']), observed=bad[:4],
+                             signature=dict(op='factorisation-history', call=label)))
+    return out, n
+
+
 def oracle(ctx, hints, broken):
     try:
         viol, n = check(ctx['rng'])
+        vh, nh = factorisation_history()
+        viol, n = viol + vh, n + nh
         import io, contextlib
         with contextlib.redirect_stdout(io.StringIO()):
             ve, ne = M.check_examples(['rbc', 'krusell_smith', 'hank', 'two_asset'] if ctx['tier'] == 'thorough' or broken else ['rbc', 'krusell_smith'], 'ge')
@@ -296,9 +336,12 @@ def oracle(ctx, hints, broken):
     return dict(evaluations=n, violations=out,
                 rule='generated linear models with leads and lags of different depths (upstream lead->lag chain): solve_jacobian and solve_impulse_linear vs a dense reference; 5-block forward-looking model with 2 unknowns/targets and 3 exogenous inputs, T in {6, 25}: target residual H_U G_U + H_Z, chain-rule totals, '
                      'requested-output subsets, supplied factorisations (same and reversed target order), linear impulses vs G @ shock (incl. a shock reaching only the '
-                     'last target), additivity')
+                     'last target), additivity; linear methods of a solved block and of its model at a second steady state after general-equilibrium calls at a first one vs objects built afresh')
 
 
 def replay(rp):
+    if (rp.get('input') or {}).get('kind') == 'factorisation-history':
+        v = [x for x in factorisation_history()[0] if x['input']['call'] == rp['input'].get('call')]
+        return v[0] if v else None
     v = check(C.Rng(0), (rp.get('input') or {}).get('calib_override'))[0]
     return v[0] if v else None
